@@ -9,7 +9,7 @@
    expressible in these models; they are covered by race-detector runs of the real binary
    only (supporting evidence, not proof). *)
 From stdpp Require Import gmap.
-From Hermes Require Import PoolModel PoolProofs DispatchModel DispatchProofs OutFileModel OutFileProofs.
+From Hermes Require Import PoolModel PoolProofs DispatchModel DispatchProofs OutFileModel OutFileProofs HandleModel HandleProofs.
 
 (* every value returned by any interleaving (= any list, the mutex serialises) of Get and
    Close calls equals the disk content of the requested path; invariant: pool ⊆ disk *)
@@ -109,6 +109,27 @@ Theorem C03_trunc_is_needed :
   data ++ drop (length data) old <> data.
 Proof. exact @trunc_is_needed_lemma. Qed.
 
+(* the same batch line repeated in one batch (same result folder), -concurrent >= 2: any number
+   of writers of the same content on one file, each opened truncating and writing at its own
+   offset, in ANY interleaving of opens and writes, from ANY prior content: when all have
+   written everything the file is exactly that content *)
+Theorem C03_identical_writers :
+  forall (byte : Type) (zero : byte) (d : list byte) (f0 : @hfile byte) (tr : list wevent) (s : @wstate byte),
+  wexec zero d (WState f0 (fun _ => None)) tr s ->
+  opened s -> (forall i o, offs s i = Some o -> o = N.of_nat (length d)) ->
+  file_bytes (wfile s) = d.
+Proof. exact @identical_writers_lemma. Qed.
+
+(* the model distinguishes the flags: with O_APPEND|O_TRUNC two such writers double the file *)
+Theorem C03_append_flag_doubles :
+  forall (byte : Type) (zero : byte) (d : list byte), d <> [] ->
+  let '(f1, ha) := hopen zero true true (empty_file zero) in
+  let '(f2, hb) := hopen zero true true f1 in
+  let '(f3, _) := hwrite zero f2 ha d in
+  let '(f4, _) := hwrite zero f3 hb d in
+  flen f4 = (2 * N.of_nat (length d))%N /\ file_bytes f4 <> d.
+Proof. exact @append_flag_doubles_lemma. Qed.
+
 (* non-vacuity: a concrete batch (5 lines, one failing, concurrency 2): the executable
    scheduler yields a maximal schedule of 15 transitions with summary [3] *)
 Example C03_nonvacuous :
@@ -127,3 +148,5 @@ Print Assumptions C03_scheduler_sound.
 Print Assumptions C03_last_writer_wins.
 Print Assumptions C03_result_independent_of_history.
 Print Assumptions C03_trunc_is_needed.
+Print Assumptions C03_identical_writers.
+Print Assumptions C03_append_flag_doubles.
